@@ -203,6 +203,7 @@ Lemma read_chunk_frame o h st eof s st' eof' s' :
   eof' = (eof || ((chunk_version b =? 0) && (chunk_type b =? ChunkType_EndOfFile))).
 Proof.
   unfold read_chunk. intros Hok H.
+  destruct eof; [discriminate|].
   inv_bind H. destruct a as [d s1].
   apply make_decoder_inv in Ha; [|unfold ovmb_size_ChunkHeader; lia].
   destruct Ha as [Hb [Hd [Hav1 Hav1']]]. unfold ovmb_size_ChunkHeader in *.
@@ -223,6 +224,7 @@ Proof.
   assert (Hflr : 0 <= file_length).
   { subst file_length. pose proof (le_decode_field_range 8 8 d Hokd) as R. lia. }
   destruct (file_length <? padding) eqn:E1; [discriminate|]. apply Z.ltb_ge in E1.
+  destruct (negb (compression =? 0)); [discriminate|].
   destruct (remaining_bytes s1 <? file_length) eqn:E2; [discriminate|]. apply Z.ltb_ge in E2. unfold remaining_bytes in E2.
   inv_bind H. destruct a0 as [cd s2].
   apply make_decoder_inv in Ha; [|lia]. destruct Ha as [Hb2 [Hcd [Hav2 Hav2']]].
@@ -522,10 +524,11 @@ Proof.
   apply bytes_ok_app_inv in Hb. destruct Hb as [Hb _].
   split; [exact Hb|].
   repeat rewrite len_app in Hl.
-  pose proof (len_nonneg (enc_u32 ty)). pose proof (len_nonneg (enc_u64 (write_chunk_file_length (len p)))).
-  pose proof (len_nonneg (repeat 0 (Z.to_nat (write_chunk_padding_bytes (len p))))).
-  pose proof (len_nonneg [0; write_chunk_padding_bytes (len p); 0; ChunkFlags_Mandatory]).
-  unfold byte in *. lia.
+  match type of Hl with ?a + (?b + (?c + (?d + ?e))) < _ =>
+    assert (0 <= a) by apply len_nonneg; assert (0 <= b) by apply len_nonneg;
+    assert (0 <= c) by apply len_nonneg; assert (0 <= e) by apply len_nonneg;
+    assert (len p = d) by reflexivity end.
+  lia.
 Qed.
 
 Definition small (b : list byte) : Prop := bytes_ok b /\ len b < 4611686018427387904.
@@ -568,7 +571,7 @@ Qed.
 
 Lemma write_props_noeof ps : forall idx, small (write_props idx ps) -> noeof_chunks (write_props idx ps).
 Proof.
-  induction ps as [|[p ty] t IH]; intros idx H; simpl in *; [constructor|].
+  induction ps as [|[p ty] t IH]; intros idx H; cbn [write_props] in *; [constructor|].
   apply small_app_inv in H. destruct H as [H1 H2].
   apply noeof_app; [|apply IH; exact H2].
   apply chunk_noeof; [unfold ChunkType_Property; lia|discriminate|exact H1].
@@ -624,7 +627,7 @@ Proof.
   unfold decode_impl, decode_stream.
   destruct (read_header _) as [[h ok] s1] eqn:Eh.
   destruct (negb (compatible o h)); [discriminate|].
-  destruct ok; simpl; [|discriminate].
+  destruct ok; cbn [negb]; [|discriminate].
   apply read_header_inv in Eh; [|reflexivity]. cbn [s_bytes s_avail] in Eh.
   destruct Eh as [H48 [Hb1 _]].
   destruct (chunk_loop _ o h init_rst false s1) as [[st eof]|r0 st|w] eqn:EL; [|discriminate|discriminate].
@@ -639,5 +642,5 @@ Proof.
   rewrite skipn_exact in F by exact HH.
   assert (Hlt : (n - 48 < length (B ++ E))%nat) by (rewrite app_length in Hn; lia).
   pose proof (framed_prefix_noeof B HB ChunkType_EndOfFile [] (n - 48)%nat eof eof_payload_ok Hlt F) as Q.
-  subst eof. simpl. discriminate.
+  subst eof. cbn [negb]. discriminate.
 Qed.
